@@ -108,10 +108,11 @@ def build(read):
 
     b.text = assemble([
         "// GENERATED on every run by /verif/verus/scoped.py from /repo's working tree - do not edit",
-        parts.HEADER.replace("use std::collections::HashSet;\n", ""), parts.OPAQUE_CONTEXT, parts.OPAQUE_VALUE,
+        parts.HEADER.replace("use std::collections::HashSet;\n", ""), parts.OPAQUE_CONTEXT, parts.value_items(b, read), parts.value_model(True),
         sel, err_text, parts.located_spec(variants), parts.ast_text(b, read),
         "// ---- verbatim from src/eval/mod.rs / bind.rs", esc, bt,
         MODEL,
+        parts.value_ctors(b, read, ["new_val_ref_with_no_source", "new_val_ref_with_source", "new_null", "new_bool", "new_int", "new_str", "new_list", "new_object"]),
         "// ---- functions under contract (verbatim bodies; contract text inserted at anchors)",
         f1, f2,
         parts.FOOTER,
